@@ -185,7 +185,11 @@ func (c *FCtx) oblige(st *State, kind, name string, pos token.Pos, goal *Term, t
 		}
 		return
 	}
-	o := &Obligation{Name: c.Name + ":" + name, Kind: kind, Goal: goal, Hyps: st.pc.list(), Func: c.Name, Text: text}
+	hyps := st.pc.list()
+	if len(c.Globals) > 0 {
+		hyps = append(append([]*Term{}, hyps...), c.Globals...)
+	}
+	o := &Obligation{Name: c.Name + ":" + name, Kind: kind, Goal: goal, Hyps: hyps, Func: c.Name, Text: text}
 	if pos.IsValid() {
 		o.Pos = c.W.relPos(pos)
 	}
